@@ -38,7 +38,7 @@ def is_recursion(outcome):
     return outcome[0] == 'err' and outcome[1] == 'builtins.RecursionError'
 
 
-PREEMPT_TICK_CAP = 40000000
+PREEMPT_TICK_CAP = 20000000
 
 
 class C18(Engine):
